@@ -64,6 +64,10 @@ _VIEW_READS = ['riface', 'renderer', 'defperm', 'policy', 'csrfopts', 'mapper', 
 
 
 GUARDS = {'set_authentication_policy#0': ['policy']}
+# add_notfound_view(append_slash=True) derives the wrapped view while the statement is declared (self._derive_view): it
+# reads these families AS COMMITTED SO FAR.  Inside one commit nothing of the program is committed yet, so every
+# ordering / nesting sees the defaults; programs with such a statement get no intermediate commit (NOTES.md).
+EAGER_DERIVE = ['derivers', 'deriversc', 'mapper', 'renderer', 'defperm', 'policy', 'csrfopts', 'preds', 'predsc', 'accept', 'acceptc']
 
 
 def R(disc=(), reads=(), writes=(), decl=()):
